@@ -142,6 +142,25 @@ def rc_env_trouble(row):
     own wait expired: the run says nothing about the property"""
     if row["timeout"]:
         return True
+    # an abort that landed after the back-off sleep it was aimed at (stalled machine): before the abort marker the
+    # manager announced more attempts than the script has dials in that segment
+    toks = row["script"]
+    ev = row["events"]
+    marks = [i for i, e in enumerate(ev) if e["k"] in ("in:open", "in:drop", "in:close", "in:abort", "in:end")]
+    acts = [t for t in toks if t in ("open", "drop", "close", "abort", "sabort")]
+    for mi, pos in enumerate(marks[:-1]):
+        if ev[marks[mi + 1]]["k"] == "in:abort" and mi < len(acts):
+            # segment mi precedes an abort: count its scripted dials
+            idx = [i for i, t in enumerate(toks) if t in ("open", "drop", "close", "abort", "sabort")][mi]
+            nd = 0
+            for t in toks[idx + 1:]:
+                if t in ("open", "drop", "close", "abort", "sabort"):
+                    break
+                nd += 1
+            scripted_attempts = nd - (1 if toks[idx] == "open" else 0)
+            seen = sum(1 for e in ev[pos:marks[mi + 1]] if e["k"] == "reconnect_attempt")
+            if seen > max(0, scripted_attempts):
+                return True
     errs = sum(1 for e in row["events"] if e["k"] == "error")
     fails = sum(1 for e in row["events"] if e["k"].startswith("dial:") and e["k"][5:] in RC_FAIL)
     return errs > fails
@@ -207,6 +226,26 @@ def reconnect_suite(ctx, vh):
         for j, k in enumerate(keep):
             judged[suspects[k]] = again[k] if (suspects[k] in bo2 | ba2 | bd2) else judged[suspects[k]]
         bad_oracle, bad_agree, bad_deliv = nrep(bad_oracle, bo2), nrep(bad_agree, ba2), nrep(bad_deliv, bd2)
+        # and a third time: a real defect fails every time, a stalled machine does not
+        still = sorted(set(bad_oracle) | set(bad_agree) | set(bad_deliv))
+        if still:
+            path = os.path.join(ctx.work, "rc_suspects3.jsonl")
+            with open(path, "w") as f:
+                for i in still:
+                    f.write(json.dumps(judged[i]) + "\n")
+            third = ctx.vh_jsonl(vh, "reconnect", ["-replay", path, "-seed", 3], timeout=900)
+            if third is None:
+                return
+            ok3 = set()
+            keep3 = [k for k, r in enumerate(third) if not rc_env_trouble(r) or r["timeout"]]
+            t3 = [rc_term(third[k]) for k in keep3]
+            bo3, ba3 = eval_both(ctx, "rc_third", RC_HDR, t3, shard=50)
+            fail3 = {still[keep3[j]] for j in set(bo3) | set(ba3)} | {still[k] for k in keep3 if not rc_delivery_ok(third[k])}
+            gone = [i for i in still if i not in fail3]
+            ctx.indeterminate += len(gone)
+            bad_oracle = [i for i in bad_oracle if i in fail3]
+            bad_agree = [i for i in bad_agree if i in fail3]
+            bad_deliv = [i for i in bad_deliv if i in fail3]
     for r in judged:
         nd = sum(1 for t in r["script"] if t not in ("open", "drop", "close", "abort", "sabort"))
         ctx.count(1, nontrivial_key=("rc", r["limit"], r["norecon"], tuple(r["script"])) if nd >= 2 else None,
@@ -270,7 +309,8 @@ def off_term(row, upto=None):
 def off_show(row):
     def one(o):
         if o["op"] == "emit":
-            return "emit(%d%s%s%s)" % (o.get("l", 0), ",volatile" if o.get("vol") else "", ",ack" if o.get("ack") else "",
+            chain = {"vt": ",Volatile().Timeout(d)", "tv": ",Timeout(d).Volatile()", "t": ",Timeout(d)"}.get(o.get("chain", ""), "")
+            return "emit(%d%s%s%s%s)" % (o.get("l", 0), ",volatile" if o.get("vol") else "", ",ack" if o.get("ack") else "", chain,
                                        ",%d attachments" % o["att"] if o.get("att") else "")
         if o["op"] == "recv":
             return "recv(%d,id=%d,handlers=%s)" % (o.get("l", 0), o.get("id", 0), o["hs"])
@@ -294,7 +334,10 @@ def offline_suite(ctx, vh):
     for r in disturbed[:6]:
         one = ctx.vh_jsonl(vh, "offline", ["-replay", json.dumps(r["ops"]), "-n", 0, "-seed", 1], timeout=300)
         if one and one[0]["timeout"] == r["timeout"]:
-            ctx.violation("offline buffer: history %s: the effect of %s never shows up (twice in a row, the second time run alone): "
+            one2 = ctx.vh_jsonl(vh, "offline", ["-replay", json.dumps(r["ops"]), "-n", 0, "-seed", 2], timeout=300)
+            if not (one2 and one2[0]["timeout"] == r["timeout"]):
+                continue
+            ctx.violation("offline buffer: history %s: the effect of %s never shows up (three times in a row, twice run alone): "
                           "a CONNECT request, a connect / close callback, a parked event or a flushed frame is missing"
                           % (off_show(r), r["timeout"]),
                           {"kind": "failing-input", "engine": "offline", "case": {"ops": r["ops"], "wire": one[0]["wire"],
@@ -317,6 +360,20 @@ def offline_suite(ctx, vh):
         ctx.indeterminate += len(set(bad_oracle) - bo2) + len(set(bad_agree) - ba2)
         bad_oracle = [i for i in bad_oracle if i in bo2]
         bad_agree = [i for i in bad_agree if i in ba2]
+        still = sorted(set(bad_oracle) | set(bad_agree))
+        if still:   # and a third time
+            third = []
+            for i in still:
+                one = ctx.vh_jsonl(vh, "offline", ["-replay", json.dumps(rows[i]["ops"]), "-n", 0, "-seed", 3], timeout=300)
+                if one is None:
+                    return
+                third.append(one[0])
+            t3 = [off_term(r, None if not r["timeout"] else max(0, len(r["wire"]) - 1)) for r in third]
+            bo3, ba3 = eval_both(ctx, "off_third", OFF_HDR, t3, shard=50)
+            bo3, ba3 = {still[j] for j in bo3}, {still[j] for j in ba3}
+            ctx.indeterminate += len(set(bad_oracle) - bo3) + len(set(bad_agree) - ba3)
+            bad_oracle = [i for i in bad_oracle if i in bo3]
+            bad_agree = [i for i in bad_agree if i in ba3]
     for r in rows:
         kinds = set(o["op"] for o in r["ops"])
         parked = any(o["op"] == "emit" for o in r["ops"]) and "reply" in kinds
